@@ -277,6 +277,37 @@ def rel_gate(v):
                                stdout=subprocess.PIPE, stderr=subprocess.PIPE)
             natives['build'] = p.returncode
             if p.returncode != 0: confirmed = True; notes.append('no_std build fails again: ' + p.stderr.decode()[-300:])
+    elif rel == 'work_counter':
+        return 'unconfirmable', {'native': {}, 'notes': ['work counters (cursor travel, per-byte reads) are observable on the MIR only; no native confirmation exists for a short input']}
+    elif rel == 'work':
+        from .props import c20
+        fam, variant = v['family'].split('@')
+        spec = [f for f in c20.families('thorough') if f[0] == fam][0]
+        name, fl, kind2, mk = spec
+        bits = 0
+        for i, f in enumerate(fl):
+            if f is True: bits |= 1 << i
+        entry = 'time_' + en(kind2, 'cfg')
+        sizes = (64, 1024)
+        for prof in [profile_for(variant, True)]:
+            items = []
+            for k in sizes:
+                pre, ns, suf = mk(k); items.append((entry, bits, 20, (pre + b'aa'[:ns] + suf).hex()))
+            res = run_native(items, prof)
+            t1, t2 = res[0]['impl'].get('ns', 0), res[1]['impl'].get('ns', 0)
+            l1, l2 = len(items[0][3]) // 2, len(items[1][3]) // 2
+            natives[prof] = {'ns': [t1, t2], 'len': [l1, l2]}
+            if t1 > 0 and t2 / t1 > 3.0 * (l2 / l1):
+                confirmed = True; notes.append(f'{prof}: {l2 / l1:.1f}x the input costs {t2 / t1:.1f}x the time ({t1} ns -> {t2} ns for 20 parses)')
+            else: notes.append(f'{prof}: {l2 / l1:.1f}x the input costs {t2 / max(1, t1):.1f}x the time')
+    elif rel == 'lattice':
+        # the lattice verdict is a z3 validity query over the real cfg attributes; re-run it (deterministic) as the confirmation
+        from . import lattice
+        res = lattice.analyse(build.REPO)
+        bad = [r for r in res['results'] if not r['holds']]
+        if bad: confirmed = True; notes.append('; '.join(f"{r['obligation']}: {r['counterexample']}" for r in bad[:3]))
+    elif rel == 'cell':
+        return 'unconfirmable', {'native': {}, 'notes': ['runtime-feature cell invariant: a statement over all CPUs and interleavings; this host has one CPU kind']}
     elif rel == 'completable':
         entry = en(kind, v['api'])
         for prof in profs:
